@@ -49,6 +49,8 @@ type Exec struct {
 	lastShape       string
 
 	md *multiState
+
+	noRoundChecks bool
 }
 
 type evlog struct {
@@ -72,17 +74,25 @@ var RealMode bool
 // RunCase executes c and returns its outcome.  It never panics: harness
 // trouble is reported through err.
 func RunCase(c *Case) (out *Outcome, err error) {
+	if c.Flags["faultEnum"] {
+		return RunFaultEnum(c)
+	}
+	out, _, err = runCaseEx(c)
+	return out, err
+}
+
+func runCaseEx(c *Case) (out *Outcome, classes []string, err error) {
 	e := &Exec{c: c, hist: NewHistory(), out: &Outcome{Case: c, Faults: map[string]int{}, Probes: map[string]int{}},
 		probes: map[string]bool{}, shapes: map[string]bool{}, opts: c.Opts}
 	dir := fmt.Sprintf("/dev/shm/verif-run-%d-%d", os.Getpid(), atomic.AddInt64(&runSeq, 1))
 	os.RemoveAll(dir)
 	if err := os.MkdirAll(dir, 0700); err != nil {
-		return nil, err
+		return nil, nil, err
 	}
 	defer os.RemoveAll(dir)
 	e.fs = NewFS(dir, c.Faults)
-	simrt.Hooks = e.fs.Hooks()
-	defer func() { simrt.Hooks = simrt.OSHooks{} }()
+	registerFS(e.fs)
+	defer unregisterFS(e.fs)
 
 	if c.Flags["leakCheck"] {
 		// no collection while descriptors are being counted: a finalizer must
@@ -107,6 +117,22 @@ func RunCase(c *Case) (out *Outcome, err error) {
 		res = simrt.Run(cfg, e.main)
 	}
 
+	if e.viol == nil && res.Violation == nil && c.Flags["crash"] {
+		func() {
+			defer func() {
+				if r := recover(); r != nil {
+					if _, ok := r.(abortRun); !ok {
+						panic(r)
+					}
+				}
+			}()
+			tier := "quick"
+			if c.Flags["tier-thorough"] {
+				tier = "thorough"
+			}
+			e.crashEnumerate(tier)
+		}()
+	}
 	o := e.out
 	o.Steps, o.Switches, o.SimNanos = res.Steps, res.Switches, res.SimNanos
 	o.TraceHash, o.InterHash, o.Tasks, o.Stranded, o.StepLimit = res.TraceHash, res.InterHash, res.Tasks, res.Stranded, res.StepLimit
@@ -135,7 +161,7 @@ func RunCase(c *Case) (out *Outcome, err error) {
 		cc.Index = 0
 		o.CaseHash = hashBytes([]byte(jsonStr(cc)))
 	}
-	return o, nil
+	return o, e.fs.Eligible, nil
 }
 
 // attribute maps a runtime-level violation class to the property it breaks.
@@ -407,7 +433,7 @@ func (e *Exec) onError(err error) {
 
 // onPersistRound runs in the persister task right after a successful round.
 func (e *Exec) onPersistRound() {
-	if e.store == nil || e.viol != nil || e.c.Drivers != nil {
+	if e.store == nil || e.viol != nil || e.c.Drivers != nil || e.noRoundChecks {
 		return
 	}
 	defer func() {
